@@ -347,22 +347,28 @@ Section Closed.
                  (hist st) (calls st) (occ_log st) (num st)).
   Proof. reflexivity. Qed.
 
+  (* before the scheduler is called the block leaves a resolve pending (regenerated `pre` piece) *)
+  Lemma before_schedule_eq (st : state) :
+    before_schedule N V st = set_flags N V st true (last_upd st).
+  Proof. reflexivity. Qed.
+
   Lemma sched_phase_eq (st : state) :
     sched_phase st =
     if Simulator_recompute_cond (iter st) (last_upd st) (resolve st) maxrec then
       match num_view (iter st) (occ st) (num st) with
-      | Err e => ErrS e st
+      | Err e => ErrS e (set_flags N V st true (last_upd st))       (* interrupted with the resolve pending *)
       | Ok v =>
           match num_apply (iter st) (num st) (sched v) with
           | Ok n => OkS (mkState (iter st) false (Some (iter st)) (queue st) (occ st) (ev_hist st)
                                  (hist st) (calls st ++ [(iter st, v)]) (occ_log st) n)
-          | Err e => ErrS e (log_call N V st v)
+          | Err e => ErrS e (log_call N V (set_flags N V st true (last_upd st)) v)
           end
       end
     else OkS st.
   Proof.
-    unfold SimSkel.sched_phase, SimSkel.apply_schedule.
+    unfold SimSkel.sched_phase, SimSkel.apply_schedule. rewrite before_schedule_eq.
     destruct (Simulator_recompute_cond (iter st) (last_upd st) (resolve st) maxrec); [|reflexivity].
+    cbn [iter occ num set_flags].
     destruct (num_view (iter st) (occ st) (num st)) as [v|e]; [|reflexivity].
     cbn. destruct (num_apply (iter st) (num st) (sched v)); reflexivity.
   Qed.
@@ -1447,14 +1453,15 @@ Section C05.
     bindS N V (events_phase st) (fun s1 =>
       if Simulator_recompute_cond (iter s1) (last_upd s1) (resolve s1) maxrec then
         match num_view (iter s1) (occ s1) (num s1) with
-        | Err e => ErrS e s1
-        | Ok v => bindS N V (apply_schedule N V Sch num_apply s1 v (sched v)) tail_phase
+        | Err e => ErrS e (before_schedule N V s1)
+        | Ok v => bindS N V (apply_schedule N V Sch num_apply (before_schedule N V s1) v (sched v)) tail_phase
         end
       else tail_phase s1).
   Proof.
     unfold SimSkel.step. destruct (events_phase st) as [s1|e s1]; cbn [bindS]; [|reflexivity].
     unfold SimSkel.sched_phase.
     destruct (Simulator_recompute_cond (iter s1) (last_upd s1) (resolve s1) maxrec); [|reflexivity].
+    rewrite before_schedule_eq. cbn [iter occ num set_flags].
     destruct (num_view (iter s1) (occ s1) (num s1)); reflexivity.
   Qed.
 End C05.
